@@ -371,3 +371,71 @@ def write_program(root: str, shape: str, variant: dict[int, int] | None = None, 
         with open(mp, "w") as f:
             f.write(main)
         os.utime(mp, (1_000_000, 1_000_000))
+
+
+# ----------------------------------------------------------------------------- free-running parallel build of an arbitrary program
+def run_parallel_flags(root: str, *, flags: list[str], sources: list[tuple[Any, str]], n: int = 2, cache_dir: str | None = None) -> dict[str, Any]:
+    """A real `-n N` build (coordinator in a forked child, real worker subprocesses, no gating: the schedule is whatever
+    happens) with options built from command-line flags as the corpus drivers do. Retried when workers cannot be started."""
+    def child(wfd: int) -> None:
+        out: dict[str, Any] = {}
+        try:
+            os.chdir(root)
+            import mypy.build as B
+            from mypy.errors import CompileError
+            from mypy.main import process_options
+            from mypy.modulefinder import BuildSource
+
+            B.WORKER_START_TIMEOUT = 60
+            _, o = process_options(list(flags), require_targets=False)
+            base = W.make_options(root, cache_dir)
+            for k in ("use_builtins_fixtures", "incremental", "cache_dir", "sqlite_cache", "fixed_format_cache", "show_traceback"):
+                setattr(o, k, getattr(base, k))
+            if not any(x.startswith("--python-version") for x in flags):
+                o.python_version = (3, 12)
+            o.hide_error_codes = "--show-error-codes" not in flags
+            o.native_parser = True
+            o.local_partial_types = True
+            o.num_workers = n
+            o.fast_exit = False
+            env = dict(os.environ, MYPY_ALT_LIB_PATH=root, PYTHONPATH=os.environ.get("VERIF_REPO", "/repo"), PYTHONDONTWRITEBYTECODE="1")
+            env.pop("VERIF_GATE_DIR", None)
+            srcs = [BuildSource(p, mname, None) for p, mname in sources]
+            try:
+                res = B.build(srcs, o, alt_lib_path=root, worker_env=env)
+                out["messages"] = res.errors
+                out["status"] = 1 if any(": error:" in x for x in res.errors) else 0
+            except CompileError as e:
+                out["messages"] = e.messages
+                out["status"] = 2
+        except BaseException as e:
+            import traceback
+            out["crash"] = "".join(traceback.format_exception(type(e), e, e.__traceback__))[-3000:]
+            out["status"] = 3
+            out.setdefault("messages", [])
+        with os.fdopen(wfd, "wb") as f:
+            f.write(json.dumps(out).encode())
+        os._exit(0)
+
+    r: dict[str, Any] = {}
+    for attempt in range(4):
+        rfd, wfd = os.pipe()
+        sys.stdout.flush(); sys.stderr.flush()
+        pid = os.fork()
+        if pid == 0:
+            os.close(rfd)
+            try:
+                child(wfd)
+            finally:
+                os._exit(70)
+        os.close(wfd)
+        with os.fdopen(rfd, "rb") as f:
+            data = f.read()
+        os.waitpid(pid, 0)
+        r = json.loads(data) if data else {"messages": [], "status": 4, "crash": "coordinator died without result"}
+        if r.get("crash") and ("Cannot connect to build worker" in r["crash"] or "Failed to establish connection" in r["crash"] or "coordinator died" in r["crash"]):
+            time.sleep(1.0 + attempt)
+            continue
+        return r
+    r["machinery"] = "workers could not be started"
+    return r
